@@ -131,8 +131,13 @@ def write_evidence(ctx, nviol, wall):
         "wall_s": round(wall, 2),
         "violations": nviol,
     }
-    os.makedirs(os.path.join(VERIF, "evidence"), exist_ok=True)
-    p = os.path.join(VERIF, "evidence", ctx.pid + ".json")
+    # evidence describes /repo; a development run against another tree (REPO=..., mutants and seeded changes) or with a
+    # restricted script family must not overwrite it
+    evdir = os.path.join(VERIF, "evidence")
+    if os.path.realpath(REPO) != "/repo" or os.environ.get("VERIF_RPC_ONLY"):
+        evdir = os.path.join(os.environ.get("VERIF_TMP", "/tmp"), "verif-evidence-other-tree")
+    os.makedirs(evdir, exist_ok=True)
+    p = os.path.join(evdir, ctx.pid + ".json")
     tmp = p + ".tmp%d" % os.getpid()
     with open(tmp, "w") as f:
         json.dump(ev, f, indent=1, sort_keys=True)
